@@ -306,7 +306,7 @@ def h_header(ctx):
     subset = ctx.choose("data-columns", ctx.params["subsets"], free=True)
     sep = ctx.choose("separator", (" ", "\t", "   "))
     token = ctx.choose("missing-token", ("-999", "nan", "NA", "-999.0", "."))
-    spelling = ctx.choose("threshold-spelling", ("p1", "p1.0", "p01"))
+    spelling = ctx.choose("threshold-spelling", ("p1", "p1.0", "p01", "p1e0"))
     order = ctx.choose("column-order", ("natural", "reversed", "data-first", "interleaved", "rot1", "rot2"))
     row_order = ctx.choose("row-order", ("natural", "reversed", "shuffled"))
     # the dimensions follow from which coordinate columns exist
@@ -404,6 +404,43 @@ def h_header(ctx):
         ctx.flag("other+numbered")
     ctx.nontrivial(len(names) > 1)
 
+def h_sequence(ctx):
+    """several files read one after the other in one process: every input object keeps describing its own file (no state shared
+    between Text objects), whatever the order of reading"""
+    import verif.input
+    seed = core.seed()
+    order = ctx.choose("order", list(itertools.permutations(range(3))), free=True)
+    locs = gen.std_locs(2, seed)
+    vals = gen.unique_values(seed, 300)
+    specs = [("A", ["obs", "fcst", "pit", "p1", "q0.5", "e0", "crps", "spread"], 0), ("B", ["obs", "fcst", "pit", "p1", "q0.5", "e0", "crps", "spread"], 97),
+             ("C", ["obs", "fcst"], 191)]
+    ais = []
+    for name, fields, salt in specs:
+        ai = gen.AInput(name, [T0, T0 + DAY], [0.0, 6.0], locs, variable="Var" + name, units="u" + name)
+        for fi, f in enumerate(fields):
+            ai.fields[f] = {pos: vals[(salt + n_ * 7 + fi * 29) % len(vals)] for n_, pos in enumerate(ai.positions())}
+        ais.append(ai)
+    d = os.path.join(H.scratch(), "c09seq%d" % os.getpid())
+    os.makedirs(d, exist_ok=True)
+    objs = {}
+    for k in order:
+        p = gen.text_file(ais[k], os.path.join(d, ais[k].name + ".txt"))
+        kind, inp, site, out = H.quiet_call(verif.input.Text, p)
+        if kind != "ok":
+            ctx.fail("sequence:%s:%s" % (kind, site or "rejected"), file=ais[k].name)
+            return
+        objs[k] = inp
+    for k in range(3):
+        compare(ctx.fail, objs[k], ais[k], tag="sequence:%s-read-%s" % (ais[k].name, ["first", "second", "third"][order.index(k)]))
+        ctx.require(objs[k].variable.name == "Var" + ais[k].name and objs[k].variable.units == "u" + ais[k].name, "sequence:variable-metadata", file=ais[k].name,
+                    actual=[objs[k].variable.name, objs[k].variable.units])
+        extra = sorted(objs[k].other_fields)
+        want = sorted(f for f in specs[k][1] if f in ("crps", "spread", "pit"))
+        ctx.require(extra == want, "sequence:other-fields", file=ais[k].name, expected=want, actual=extra)
+    ctx.observe(order)
+    ctx.outcome("ok")
+    ctx.nontrivial()
+
 
 def h_rowperm(ctx):
     """all row orders of one file, no de-duplication (hidden parser locals carried from row to row)"""
@@ -471,6 +508,11 @@ def run(tier, only=None):
         n = 6 if q else 8
         st = explore.explore(h_rowperm, mode="full", params={"rows": n, "perms": list(itertools.permutations(range(n)))}, repo_root=core.REPO)
         subs.append(core.Sub.from_e1("rowperm", st, bound="all %d! row orders x {with, without lat/lon/elev}" % n, rule="no de-duplication", min_outcomes=1, wall=time.time() - t0))
+    if only in (None, "sequence"):
+        t0 = time.time()
+        st = explore.explore(h_sequence, mode="full", repo_root=core.REPO)
+        subs.append(core.Sub.from_e1("sequence", st, bound="all 3! orders of reading three files (two with the same columns and different values, one with obs and fcst only) in one process",
+                                     rule="after all three are read every input object still describes its own file", min_outcomes=1, wall=time.time() - t0))
     return subs
 
 
@@ -485,7 +527,9 @@ def replay(rec):
         except Exception as e:  # noqa
             return ["crash:" + core.E1.crash_site(e, core.REPO)[1]] if rec["signature"][1].startswith("crash") else []
         return [l for l, d in m.invariant(obj, tuple(hist)) if l == rec["signature"][1]]
-    if name == "header":
+    if name == "sequence":
+        ctx, _ = explore.replay(h_sequence, rec["choices"], None, repo_root=core.REPO)
+    elif name == "header":
         ctx, _ = explore.replay(h_header, rec["choices"], None, params={"subsets": all_subsets()}, repo_root=core.REPO)
     else:
         n = 6 if rec.get("tier") == "quick" else 8
